@@ -449,6 +449,8 @@ class VarField(RawField):
         el1 = struct.unpack(self.order + self.typename, el1)[0]
         res = [el1]
         pos = offset + sz1
+        self._sz = pos - offset
+        self.count = len(res)
         while not self.terminate(el1,field=self):
             el1 = data[pos : pos + sz1]
             el1 = struct.unpack(self.order + self.typename, el1)[0]
